@@ -1614,7 +1614,7 @@ pub fn run(ctx: &Ctx, ev: &mut Evidence) {
         eprintln!("HARNESS-ERROR: C15 containment oracle self-test failed: {wrong:?}");
         std::process::exit(2);
     }
-    let total = ctx.tier.pick(400u64, 50_000u64);
+    let total = ctx.tier.pick(4000u64, 50_000u64);
     let servers = std::thread::available_parallelism().map(|n| n.get()).unwrap_or(4).clamp(4, 16);
     let f03_open = ctx.findings.open("F03", "C15");
     let fc15_1_open = ctx.findings.open("FC15-1", "C15");
